@@ -16,8 +16,8 @@ mkdir -p "$root"
 if [ ! -d "$root/repo" ]; then
   git -C /repo worktree add -q --detach "$root/repo" HEAD || exit 2
 fi
+git -C "$root/repo" reset -q --hard || exit 2
 git -C "$root/repo" checkout -q --detach "$(git -C /repo rev-parse HEAD)" || exit 2
-git -C "$root/repo" checkout -q -- . || exit 2
 git -C "$root/repo" clean -fdq -e target
 if [ "$patch" != "-" ]; then
   git -C "$root/repo" apply "$patch" || { echo "patch does not apply" >&2; exit 2; }
@@ -33,6 +33,9 @@ if ! (cd "$root/harness" && cargo build --release --offline >"$root/build.log" 2
 fi
 for id in "$@"; do
   "$root/target/release/vcheck" "$id" "$tier" >"$root/out/$id.log" 2>&1; rc=$?
+  if [ $rc -ge 128 ]; then  # the process died: same second stage as ./check
+    "$root/target/release/vcheck" "$id" "$tier" --find-abort >>"$root/out/$id.log" 2>&1; rc=$?
+  fi
   d=$(grep -A1 -m1 "^VIOLATION" "$root/out/$id.log" | tail -1 | cut -c1-300)
   [ $rc -eq 0 ] && d=$(tail -1 "$root/out/$id.log" | cut -c1-120)
   [ $rc -ge 2 ] && d=$(grep -m1 -E "MACHINERY|HARNESS" "$root/out/$id.log" | cut -c1-300)
